@@ -10,6 +10,7 @@ CONSTANTS
   Questions <- Q01
   AllowEnd = FALSE
   MaxRequery = 0
+  FixCommitState = TRUE
 INVARIANTS TypeOK InOrderNoDup AllDelivered SlotsSuffice SlotBound SMPSound SMPOutcome
 PROPERTIES BothEncrypted SMPFinishes
 CHECK_DEADLOCK FALSE
